@@ -280,13 +280,19 @@ def run(ctx):
         if fn is None:
             continue
         for st in au.walk_stmts(fn.body):
-            if not (isinstance(st, ast.If) and isinstance(st.test, ast.BoolOp) and isinstance(st.test.op, ast.Or)):
+            if not isinstance(st, ast.If):
                 continue
-            outer = quant_atoms(st.test)
+            # `if A or B: <one variable> else: <two>`  or, with the arms swapped,  `if not (A or B): <two> else: <one variable>`
+            core, branch = st.test, st.body
+            if isinstance(core, ast.UnaryOp) and isinstance(core.op, ast.Not):
+                core, branch = core.operand, st.orelse
+            if not (isinstance(core, ast.BoolOp) and isinstance(core.op, ast.Or)):
+                continue
+            outer = quant_atoms(core)
             if len(outer) < 2:
                 continue
             inner = set()
-            for s2 in au.walk_stmts(st.body):
+            for s2 in au.walk_stmts(branch):
                 if isinstance(s2, ast.If):
                     inner |= {a for a in quant_atoms(s2.test) if a[2] in ("LtE", "GtE", "Lt", "Gt")}
             if not inner:
@@ -294,7 +300,7 @@ def run(ctx):
             n += 1
             sign_outer = {a for a in outer if a[2] in ("LtE", "GtE", "Lt", "Gt")}
             ok = inner <= sign_outer      # (an outer predicate without inner twin is fine when its action is the identity)
-            ctx.ob("C02.f", fn, "if %s" % au.short(st.test, 90), ok,
+            ctx.ob("C02.f", fn, "if %s" % au.short(core, 90), ok,
                    "the single-variable branch is entered under %s but applies the spread / cost sign under %s: in the gap (entered, but no "
                    "inner predicate true) the spread / sign is silently dropped - e.g. a capacity profile that is <= 0 in some steps only"
                    % (sorted(sign_outer - inner) or sorted(sign_outer), sorted(inner - sign_outer) or sorted(inner)), node=st)
